@@ -453,6 +453,10 @@ class Session:
             if e is None:
                 return
             had = e.comments
+            if had is not None and not had.on_file:
+                # a comments entity that only exists in memory (its creation was refused by a read-only workspace): a further
+                # comment has nothing to write
+                return
             e.add_comment(f"note {op['b'] % 100}", author="harness")
             com = e.comments
             self.events.append(f"comment on {self.uids.num(e.uid)}")
